@@ -79,6 +79,10 @@ type c20Case struct {
 	imports  string
 }
 
+// c20OmitBadSets drops the deliberately ill-formed top-level set variables from the shared
+// declarations (used when the family is reused for C19, where wire check legitimately reports them).
+var c20OmitBadSets bool
+
 func c20Render(cs c20Case) map[string]string {
 	imp, q := "\"github.com/google/wire\"", "wire"
 	switch cs.wireImp {
@@ -110,7 +114,12 @@ func c20Render(cs c20Case) map[string]string {
 		extraImp = "\t" + cs.imports + "\n"
 	}
 	w := "//go:build wireinject\n// +build wireinject\n\npackage p\n\nimport (\n\t" + imp + "\n" + extraImp + ")\n\n" + cs.extraTop + "\nfunc Init() " + result + " {\n" + body + "}\n"
-	return map[string]string{"defs.go": sub(c20Defs), "wire.go": sub(w)}
+	defs := c20Defs
+	if c20OmitBadSets {
+		defs = strings.Replace(defs, "\tUninitSet WIREQ.ProviderSet\n", "", 1)
+		defs = strings.Replace(defs, "var A2, B2 = TwoSets()\n", "", 1)
+	}
+	return map[string]string{"defs.go": sub(defs), "wire.go": sub(w)}
 }
 
 var rePositioned = regexp.MustCompile(`(?m)^[^\s:]+\.go:\d+:\d+: `)
@@ -251,6 +260,9 @@ func checkC20(c *h.Check) {
 	var hc []*h.Case
 	outcomes := tally{}
 	for _, cs := range cases {
+		if c20OmitBadSets && (strings.Contains(cs.build, "UninitSet") || strings.Contains(cs.build, "A2") || strings.Contains(cs.build, "B2")) {
+			continue
+		}
 		files := c20Render(cs)
 		id := cs.id
 		// wire recognises an injector only by a top-level wire.Build (or panic(wire.Build)) statement;
